@@ -109,5 +109,5 @@ ASSUME Lemma_S16_LE16 /\ Lemma_U16_LE16 /\ Lemma_S8_Low /\ Lemma_S16_Range /\ Le
 MC_PNames == {}  MC_ANames == {}  MC_PRates == {}  MC_ARates == {}
 MC_FrameKinds == {}  MC_ColKinds == {}  MC_Tags == {1}  MC_CallerIds == {}  MC_UserParams == <<>>  MC_LockNames == {}
 Dump == PrintT(ToJson([path |-> hist, op |-> lastOp', out |-> lastOut', post |-> Abs(obj'),
-                       bytes |-> IF lastOp'.op = "Reload" THEN WriterModel(obj) ELSE <<>>]))
+                       bytes |-> IF lastOp'.op = "Reload" /\ lastOut' # "range_error" THEN WriterModel(obj) ELSE <<>>]))
 =========================================================================
